@@ -88,11 +88,16 @@ func (r *run) yieldOn(what string, objs []any, block func() bool) {
 		me.blocked = nil
 		return
 	}
+	// r.intrFn (the SSA function whose intrinsic is executing) is per run, not per thread: the threads that run while
+	// this one is parked overwrite it, and an intrinsic that yields first and asks for its result type afterwards
+	// (skipmap Load/LoadAndDelete/LoadOrStore...) would see another function's signature.
+	savedIntr := r.intrFn
 	s.cur = next
 	next.resume <- struct{}{}
 	r.park(me)
 	// resumed: we are current again and enabled by construction
 	me.blocked = nil
+	r.intrFn = savedIntr
 }
 
 // pickNext chooses the thread to run at a scheduling point (me == nil when the current thread has exited).
